@@ -82,6 +82,13 @@ def gen_schema(rng, depth=2, typed=None):
         names = rng.sample(PROP_NAMES, n)
         if n:
             s["properties"] = {k: gen_schema(rng, depth - 1) for k in names}
+            if depth > 0 and rng.random() < 0.2:
+                # one schema OBJECT used at several positions (what inlining a $ref / sharing a component in code produces):
+                # as a property, as the items of a sibling array, and as a branch of a sibling anyOf
+                shared = s["properties"][names[0]]
+                if isinstance(shared, dict) and shared.get("type") in ("integer", "number", "string"):
+                    s["properties"]["sharedList"] = {"type": "array", "items": shared}
+                    s["properties"]["sharedAlt"] = {"anyOf": [shared, {"type": "null"}]}
             if rng.random() < 0.6:
                 s["required"] = rng.sample(names, rng.randint(1, n))
             if n > 1 and rng.random() < 0.2:
@@ -318,7 +325,9 @@ def run_case(case, ctx):
     except Exception as e:
         ctx.harness_errors.append({"index": ctx.case_index, "tb": "generated an invalid schema: " + str(e)[:300]})
         return
-    b = run(lambda: JsonSchemaParser(json.loads(json.dumps(doc)))())
+    import copy
+    # (a private copy that keeps the sharing structure of the document: one schema object may sit at several positions)
+    b = run(lambda: JsonSchemaParser(copy.deepcopy(doc))())
     ctx.count("builds")
     if not b.ok:
         ctx.violation("C15/build-failed/" + build_key(doc, b.exc), f"JsonSchemaParser({short(doc, 200)})() raised {b.exc!r:.200}", dict(wit, error=repr(b.exc)[:300]), sig=(shp, "build"))
